@@ -150,9 +150,10 @@ is ignored by the parser, `p:*` matches nothing.
 
 ### 11.6 Seeded property-breaking changes (detection matrix)
 
-Four rounds of fresh sub-agents (2 x 17 changes, then 17, then 17, then 9 that
+Five rounds of fresh sub-agents (2 x 17 changes, then 17, then 17, then 9 that
 were asked for changes which only manifest on LARGE instances: deep or wide
-documents, long histories, three goroutines, larger capacities) were given
+documents, long histories, three goroutines, larger capacities; then 17 that
+were asked for TWO cooperating edits, each harmless alone) were given
 only a property's text (rounds 2 and 3 also a one-line description of the
 earlier seeds, to force different mechanisms) and a scratch worktree of /repo,
 and asked for changes that break the property while compiling and passing the
@@ -195,8 +196,15 @@ Round 4 (size thresholds) led to: "spine" documents of depth 4..6(7) and
 C11, C12, C13 (the T(<=N) universes cannot reach depth 5 or five siblings
 under one element within their node budget); repetition histories (one
 operation 3..6 times) for C04; three-thread pool scenarios for C05;
-capacities 4..6 with a 7-key alphabet for C16. These are the seeds marked
-"after the check was strengthened" among the E rows; before, they were only
+capacities 4..6 with a 7-key alphabet for C16. Round 5 (cooperating edits) led to: nested function calls f(g(path)) as
+concurrent scenarios for C05 (the engine does not clone a function-call
+argument per evaluation); absolute path operands in comparisons for C07;
+arithmetic leaves whose path starts with `..` for C08; identities on paths
+with positional predicates for C13; name functions over stateful arguments
+for several candidates for C14; two replace() calls with shared literals in
+one expression for C16; damage inside the operand of `true() or X` /
+`false() and X` for C17. These are the seeds marked
+"after the check was strengthened" among the E and F rows; before, they were only
 within reach of the thorough tier (depth) or of no tier (five siblings,
 capacity 4).
 Three pre-existing engine defects were also reported by a sub-agent as a side
